@@ -432,7 +432,7 @@ package expressions
 
 // Clone copies the bindings into a new map, so that Set on the copy leaves the source alone.
 //@ func (*expressions.context).Clone
-//@ props C01 C03
+//@ props C01 C03 C04
 //@ panics nothing
 //@ requires recv: ctx != nil
 //@ assigns alloc F$expressions.context$Config, alloc F$expressions.context$bindings, alloc M$has$Str$Val, alloc M$val$Str$Val
@@ -440,7 +440,7 @@ package expressions
 //@ ensures copy: result != nil && is(result, *expressions.context) && pl_ptr(result) != 0 && fresh(as(result, *expressions.context)) && fresh(as(result, *expressions.context).bindings)
 
 //@ func (expressions.closure).Bind
-//@ props C01 C03
+//@ props C01 C03 C04
 //@ panics nothing
 //@ assigns alloc F$expressions.context$Config, alloc F$expressions.context$bindings, M$has$Str$Val, M$val$Str$Val
 //@ ensures bound: result != nil
